@@ -16,7 +16,8 @@
 //! Correspondence (tie of Model/ParaSplit.v): extracted iter_chunks / iter_sentences / iter_paragraphs / hull
 //! vs the TokenStringExt methods on real Document token lists and on synthetic kind sequences (thorough: every
 //! sequence of <= 6 kind classes over 7), and extracted LintGroup::lint (cache carried over) vs a real
-//! LintGroup with two transparent rules.
+//! LintGroup with two transparent rules.  Phase 5 (cases W, fn rules_case): the real UnclosedQuotes and the kind-guard
+//! windows of MergeWords / InflectedVerbAfterTo / AdjectiveOfA vs Model/C12Windows.run_rules; monitor guard_covers.
 use harper_core::linting::{Lint, LintGroup, Linter, LongSentences, PatternLinter};
 use harper_core::parsers::{Parser, PlainEnglish};
 use harper_core::patterns::{Pattern, SequencePattern};
